@@ -18,8 +18,8 @@ void ob_c15_shape_pad(const mk_t<K,size_t,R>& s_, const mk_t<K,size_t,2*R>& p_)
     auto r = ix::shape_pad(s,p);
     OBLIGE("C15.pad.shape.value_when_width_has_two_entries_per_axis", static_cast<bool>(r), kid<K>, R);
     if (r) {
-        OBLIGE("C02.pad.shape.dim", (size_t)nm::len(*r) == R, kid<K>, R);
-        for_<R>([&](auto I){ OBLIGE("C02.pad.shape.extent_is_source_plus_both_pads", (size_t)nm::at(*r,I.value) == (size_t)rd<I.value>(s) + (size_t)rd<I.value>(p) + (size_t)rd<R+I.value>(p), kid<K>, R, I.value); });
+        OBLIGE("C02.pad.shape.dim|C04.pad.shape.dim", (size_t)nm::len(*r) == R, kid<K>, R);
+        for_<R>([&](auto I){ OBLIGE("C02.pad.shape.extent_is_source_plus_both_pads|C04.pad.shape.extent_is_source_plus_both_pads", (size_t)nm::at(*r,I.value) == (size_t)rd<I.value>(s) + (size_t)rd<I.value>(p) + (size_t)rd<R+I.value>(p), kid<K>, R, I.value); });
     }
 }
 // run-time-length pad width: the length check is a run-time decision
@@ -54,16 +54,16 @@ void ob_c02_pad_index(const mk_t<K,size_t,R>& t_, const mk_t<K,size_t,R>& s_, co
     });
     auto r = ix::pad(idx,s,d,p);
     if constexpr (FIRST == R) {
-        OBLIGE("C02.pad.index.value_when_inside_source|C15.pad.index.value_when_inside_source", static_cast<bool>(r), kid<K>, R);
+        OBLIGE("C02.pad.index.value_when_inside_source|C04.pad.index.value_when_inside_source|C15.pad.index.value_when_inside_source", static_cast<bool>(r), kid<K>, R);
         if (r) {
-            OBLIGE("C02.pad.index.dim", (size_t)nm::len(*r) == R, kid<K>, R);
+            OBLIGE("C02.pad.index.dim|C04.pad.index.dim", (size_t)nm::len(*r) == R, kid<K>, R);
             for_<R>([&](auto J){
-                OBLIGE("C02.pad.index.src_in_shape", (size_t)nm::at(*r,J.value) < (size_t)rd<J.value>(s), kid<K>, R, J.value);
-                OBLIGE("C02.pad.index.src_is_dst_minus_pad_before", (size_t)nm::at(*r,J.value) == (size_t)rd<J.value>(t), kid<K>, R, J.value);
+                OBLIGE("C02.pad.index.src_in_shape|C04.pad.index.src_in_shape", (size_t)nm::at(*r,J.value) < (size_t)rd<J.value>(s), kid<K>, R, J.value);
+                OBLIGE("C02.pad.index.src_is_dst_minus_pad_before|C04.pad.index.src_is_dst_minus_pad_before", (size_t)nm::at(*r,J.value) == (size_t)rd<J.value>(t), kid<K>, R, J.value);
             });
         }
-    } else if constexpr (ZONE == 0) OBLIGE("C02.pad.index.nothing_in_leading_padding", !static_cast<bool>(r), kid<K>, R, FIRST);
-    else OBLIGE("C02.pad.index.nothing_in_trailing_padding", !static_cast<bool>(r), kid<K>, R, FIRST);
+    } else if constexpr (ZONE == 0) OBLIGE("C02.pad.index.nothing_in_leading_padding|C04.pad.index.nothing_in_leading_padding", !static_cast<bool>(r), kid<K>, R, FIRST);
+    else OBLIGE("C02.pad.index.nothing_in_trailing_padding|C04.pad.index.nothing_in_trailing_padding", !static_cast<bool>(r), kid<K>, R, FIRST);
 }
 // matmul
 template <class K, size_t RA, size_t RB>
@@ -95,7 +95,7 @@ void ob_c15b_negctl(const std::array<size_t,2>& a_, const std::array<size_t,2>& 
     auto r = ix::shape_matmul(a,b);
     if (r) NEGCTL("C15.NEG.matmul_rows_from_rhs", (size_t)nm::at(*r,0) == b[1], 0);
     auto q = ix::shape_pad(a,p);
-    if (q) NEGCTL("C02.NEG.pad_ignores_trailing_pad|C15.NEG.pad_ignores_trailing_pad", (size_t)nm::at(*q,0) == a[0] + p[0], 1);
+    if (q) NEGCTL("C02.NEG.pad_ignores_trailing_pad|C04.NEG.pad_ignores_trailing_pad|C15.NEG.pad_ignores_trailing_pad", (size_t)nm::at(*q,0) == a[0] + p[0], 1);
 }
 #define SP(K,R) template void ob_c15_shape_pad<K,R>(const mk_t<K,size_t,R>&, const mk_t<K,size_t,2*R>&); \
                 PI(K,R,R,0)
